@@ -1126,6 +1126,13 @@ class DirStateWorkingTree(InventoryWorkingTree):
             target to search_paths if not searched already. If it is absent, do
             nothing. Otherwise add the id to found_ids.
             """
+            if all(entry[1][index][0] in (b"a", b"r") for index in search_indexes):
+                # This row only exists because another tree in the dirstate
+                # has the id at this path: in none of the searched trees is
+                # the id here, so it has not been found (and following the
+                # relocation pointers would select it from a path that does
+                # not name it).
+                return
             for index in search_indexes:
                 if entry[1][index][0] == b"r":  # relocated
                     if not osutils.is_inside_any(searched_paths, entry[1][index][1]):
